@@ -242,6 +242,16 @@ fn make_case(tg: Vec<u16>, eg: Vec<u16>, sg: Vec<u8>, mg: Vec<u16>) -> Json {
             }
         }
     }
+    // now and then a document that does not fit one read buffer, with multi-byte characters all along
+    if r.pct(8) {
+        if let Some(i) = (0..tree.nodes.len()).find(|&i| tree.nodes[i].kind == Kind::Text) {
+            let unit = *r.pick(&["\u{e9}", "\u{3042}", "\u{1F600}"]);
+            let n = 8192 / unit.len() + 40 + r.below(3) as usize;
+            let pad = format!("{}{}", "a".repeat(r.below(4) as usize), unit.repeat(n));
+            tree.nodes[i].value = format!("{}{}", pad, tree.nodes[i].value);
+            labels.push("document-larger-than-8k".into());
+        }
+    }
     let m = mode(&mut r);
     let mut doc = vp_xref::to_xml(&tree);
     if m.xml_decl {
